@@ -88,7 +88,9 @@ def run_one(args):
         lines[ln] = new
         open(f, "w").write("\n".join(lines))
         env = dict(os.environ, CARGO_NET_OFFLINE="true", CARGO_TARGET_DIR="/tmp/mutsweep-target-%d" % slot)
-        r = subprocess.run(["cargo", "test", "--offline", "-q", "-p", crate], cwd=w, env=env, capture_output=True, text=True, timeout=900)
+        r = subprocess.run(["timeout", "-k", "5", os.environ.get("MUT_TEST_TIMEOUT", "150"), "cargo", "test", "--offline", "-q"] + [x for c_ in crate.split(",") for x in ("-p", c_)], cwd=w, env=env, capture_output=True, text=True, timeout=900)
+        if r.returncode in (124, 137):
+            return idx, "timeout", ""
         if r.returncode != 0:
             return idx, ("build" if "error[E" in r.stderr or "could not compile" in r.stderr else "tests"), ""
         env2 = dict(os.environ, VERIF_REPO=w, VERIF_EVIDENCE_DIR=os.path.join(w, "_ev"))
@@ -134,7 +136,10 @@ def main():
     print("%s: %d mutants over %s" % (a.pid, len(muts), files), flush=True)
     res = {}
     with cf.ThreadPoolExecutor(a.jobs) as ex:
-        for idx, verdict, first in ex.map(run_one, [(i, a.pid, m, crate_of(m[0])) for i, m in enumerate(muts)]):
+        crates = ",".join(sorted({crate_of(f) for f in files}))   # the tests of every crate the property is anchored in
+        futs = [ex.submit(run_one, (i, a.pid, m, crates)) for i, m in enumerate(muts)]
+        for fu in cf.as_completed(futs):
+            idx, verdict, first = fu.result()
             res[idx] = (verdict, first)
             if verdict == "SURVIVED":
                 m = muts[idx]
